@@ -406,6 +406,8 @@ func allPkgConfigs() []pkgConfig {
 		{name: "orphan-action", files: map[string]string{"g.lox": spec, "p.go": validGo + "\nfunc (p *parser) on_nosuch(n Token) int { return 2 }\n"}},
 		{name: "action-two-results", files: map[string]string{"g.lox": spec, "p.go": validGo + "\nfunc (p *parser) on_s__d(n Token, m Token) (int, error) { return 2, nil }\n"}},
 		{name: "return-type-conflict", files: map[string]string{"g.lox": spec, "p.go": strings.Replace(validGo, "on_s__b(n Token) int                { return 1 }", "on_s__b(n Token) string { return \"\" }", 1)}},
+		{name: "return-types-named-vs-underlying", files: map[string]string{"g.lox": spec, "p.go": "package pkg\n\ntype Token struct{}\n\ntype Value int\n\ntype parser struct{ lox }\n\nfunc (p *parser) on_s__a(l Value, _ Token, r Token) Value { return l + 1 }\nfunc (p *parser) on_s__b(n Token) int                    { return 1 }\n"}},
+		{name: "return-types-two-named-same-underlying", files: map[string]string{"g.lox": spec, "p.go": "package pkg\n\ntype Token struct{}\n\ntype (\n\tA struct{ X int }\n\tB struct{ X int }\n)\n\ntype parser struct{ lox }\n\nfunc (p *parser) on_s__a(l A, _ Token, r Token) A { return l }\nfunc (p *parser) on_s__b(n Token) B             { return B{} }\n"}},
 		{name: "two-packages-in-dir", files: map[string]string{"g.lox": spec, "p.go": validGo, "q.go": "package otherpkg\n"}},
 		{name: "go-file-is-directory-name-clash", files: map[string]string{"g.lox": spec, "p.go": validGo, "README": "x"}},
 		{name: "lox-with-conflicts", files: map[string]string{"g.lox": "@lexer\nA='a'\n@parser\n@start e = e A e | A\n", "p.go": validGo}},
